@@ -23,7 +23,7 @@ const nDiscon = 120
 func init() {
 	core.Register(&core.Simple{
 		Id: "C06", Lvl: "exploration", Quick: nCreators + nDiscon, Thorough: (nCreators + nDiscon) * 10, PerBatch: 70, Width: 35, Timeout: 1200,
-		RuleText: "creation cases: one creator bitmap per case ({create-user, bit i} for every i (exhaustive), all-ones minus bit i for every i (exhaustive), random) issues ~70 account creations over both creation requests with requested bitmaps = every single bit j (exhaustive: all 64x64 (i,j) pairs), random subsets/supersets and access fields of 0..10 bytes; afterwards the account must exist iff creator holds create-user and requested is a subset of creator, and its bitmap in memory, as listed and as reloaded from disk must be a subset of the creator's. disconnect cases: an admin sends disconnect with every ban option against targets holding cannot-be-disconnected plus random bits; the target must stay connected and unbanned. distinct = (kind, creator class, request path, outcome)",
+		RuleText: "creation cases: one creator bitmap per case ({create-user, bit i} for every i (exhaustive), all-ones minus bit i for every i (exhaustive), random) issues ~70 account creations over both creation requests with requested bitmaps = every single bit j (exhaustive: all 64x64 (i,j) pairs), random subsets/supersets and access fields of 0..10 bytes; afterwards the account must exist iff creator holds create-user and requested is a subset of creator, and its bitmap in memory, as listed and as reloaded from disk must be a subset of the creator's. creation cases also send two-entry update-user batches (edit an existing account, then create one asking for a privilege the creator lacks). disconnect cases: an admin sends disconnect with every ban option against targets holding cannot-be-disconnected plus random bits (held at login, or granted to the connected user's account by set-user just before, with two sessions of the account and notifications slowed by a hook delay); the target must stay connected and unbanned. distinct = (kind, creator class, request path, outcome)",
 		Case: runCase,
 	})
 }
@@ -173,6 +173,37 @@ func createCase(c *core.Case, k int) {
 			}
 		}
 	}
+	// batched update-user requests: an entry that edits an existing account (rename form, same login) followed by an
+	// entry that creates a new login asking for a privilege the creator lacks
+	if rc.BitSet(held[:], 17) && canCreate {
+		for bi := 0; bi < 3; bi++ {
+			var lacking []int
+			for j := 0; j < 64; j++ {
+				if !rc.BitSet(held[:], j) {
+					lacking = append(lacking, j)
+				}
+			}
+			if len(lacking) == 0 {
+				break
+			}
+			want := rc.Bitmap(core.Pick(r, lacking))
+			base := fmt.Sprintf("base%d", bi)
+			if rep, ok := cr.Call(350, rc.F(105, rc.Obfuscate([]byte(base))), rc.FS(102, "Base"), rc.F(106, rc.Obfuscate([]byte("pw"))), rc.F(110, make([]byte, 8))); !ok || rep.Err != 0 {
+				continue
+			}
+			newLogin := fmt.Sprintf("accbatch%d", bi)
+			cr.Call(349,
+				rc.F(101, rc.SubFields(rc.F(101, rc.Obfuscate([]byte(base))), rc.F(105, rc.Obfuscate([]byte(base))), rc.FS(102, "Base edited"), rc.F(106, []byte{0}), rc.F(110, make([]byte, 8)))),
+				rc.F(101, rc.SubFields(rc.F(105, rc.Obfuscate([]byte(newLogin))), rc.FS(102, "Sneaky"), rc.F(106, rc.Obfuscate([]byte("pw"))), rc.F(110, want))))
+			if acc := srv.S.AccountManager.Get(newLogin); acc != nil && !subset(acc.Access[:], held[:]) {
+				c.Fail("C06/update-user-batch/amplification", "creator holding %x sent a two-entry update-user (edit %q, then create %q asking for %x): the new login exists with access %x", held, base, newLogin, want, acc.Access)
+			}
+			if srv.S.AccountManager.Get(base) == nil {
+				c.Fail("C06/update-user-batch/edited-account-lost", "after a two-entry update-user the edited account %q no longer exists", base)
+			}
+			c.Count("batch_requests", 1)
+		}
+	}
 	// as listed to an administrator
 	lr, ok := adm.Call(348)
 	if !ok || lr.Err != 0 {
@@ -238,8 +269,14 @@ func disconnectCase(c *core.Case, k int) {
 	case 5:
 		opt = []byte{byte(r.Intn(256)), byte(1 + r.Intn(2))}
 	}
+	late := k%3 == 1 // the protection is granted to the already connected user by an administrator's set-user
+	initial := target
+	if late {
+		initial = append([]byte{}, target...)
+		initial[23/8] &^= 0x80 >> uint(23%8)
+	}
 	srv, err := fixture.New(fixture.Options{Accounts: []fixture.Account{
-		{Login: "prot", Name: "Prot", Access: target},
+		{Login: "prot", Name: "Prot", Access: initial},
 		{Login: "admin", Name: "admin", Access: rc.AllBits()},
 		{Login: "guest", Name: "guest", Access: fixture.GuestBits()},
 	}})
@@ -259,20 +296,46 @@ func disconnectCase(c *core.Case, k int) {
 		c.Unsure("login: %v", err)
 		return
 	}
+	if late {
+		// a second session of the same account, and slow delivery of notifications: the grant must be in force for
+		// every session of the account by the time the administrator's request is acknowledged
+		tgt0 := tgt
+		tgt, err = refclient.LoginAs(srv, ip+":4001", "prot", "", "Protected")
+		if err != nil {
+			c.Unsure("login: %v", err)
+			return
+		}
+		_ = tgt0
+	}
 	ul, _ := adm.Call(300)
+	if late {
+		// the disconnect request follows the acknowledged set-user immediately
+		srv.OnEvent = func(name string, cid [2]byte, x uint32) {
+			if name == "outbox.dequeued" && x == 301 {
+				time.Sleep(2 * time.Millisecond)
+			}
+		}
+		rep, ok := adm.CallDirect(353, rc.F(105, rc.Obfuscate([]byte("prot"))), rc.FS(102, "Prot"), rc.F(110, target), rc.F(106, []byte{0}))
+		if !ok || rep.Err != 0 {
+			c.Unsure("set-user failed: %v", rep)
+			return
+		}
+	}
 	users, _ := refclient.UserList(ul)
 	var tid uint16
 	for _, u := range users {
 		if string(u.Name) == "Protected" || string(u.Name) == "Prot" {
-			tid = u.ID
+			if u.ID > tid {
+				tid = u.ID // the most recent session of the account
+			}
 		}
 	}
 	fields := []rc.Field{rc.F(103, rc.U16(int(tid)))}
 	if opt != nil {
 		fields = append(fields, rc.F(113, opt))
 	}
-	reply, ok := adm.Call(110, fields...)
-	c.Describe(fmt.Sprintf("disconnect-protected/opt%d", optClass), map[string]any{"target_access": fmt.Sprintf("%x", target), "options": fmt.Sprintf("%x", opt), "reply": reply.String()})
+	reply, ok := adm.CallDirect(110, fields...)
+	c.Describe(fmt.Sprintf("disconnect-protected/opt%d/late=%v", optClass, late), map[string]any{"target_access": fmt.Sprintf("%x", target), "options": fmt.Sprintf("%x", opt), "reply": reply.String()})
 	if !ok {
 		c.Fail("C06/disconnect/no-reply", "disconnect of a protected user got no reply (options %x)", opt)
 		return
